@@ -5,6 +5,7 @@ then applies it to /repo, runs the named checks and restores /repo. Writes /veri
 import json, os, shutil, subprocess, sys, time
 
 VERIF = os.path.dirname(os.path.dirname(os.path.abspath(__file__)))
+DEMO_FLAGS = os.environ.get("SEED_DEMO_FLAGS", "")   # e.g. -fsanitize=address,undefined when the demonstration needs a sanitizer to fail
 
 
 def sh(cmd, **kw):
@@ -24,13 +25,13 @@ def main():
     os.makedirs(out, exist_ok=True)
     shutil.copy(patch, os.path.join(out, "patch.diff"))
     shutil.copy(demo, os.path.join(out, "demo.cpp"))
-    info = {"id": sid, "breaks_property": prop, "needs_to_manifest": open(meta).read().strip(), "ran": {}}
+    info = {"id": sid, "breaks_property": prop, "demo_extra_flags": DEMO_FLAGS, "needs_to_manifest": open(meta).read().strip(), "ran": {}}
     # ---- 1. confirm in a scratch worktree
     wt = "/tmp/wt/verify_" + sid
     sh("git -C /repo worktree remove --force %s" % wt)
     r = sh("git -C /repo worktree add -q --detach %s HEAD" % wt)
     try:
-        r = sh("g++ -std=c++17 -O1 -pthread -I%s/include %s %s/src/*.cpp -o %s/demo_clean && %s/demo_clean" % (wt, demo, wt, wt, wt), timeout=600)
+        r = sh("g++ -std=c++17 -O1 -pthread %s -I%s/include %s %s/src/*.cpp -o %s/demo_clean && %s/demo_clean" % (DEMO_FLAGS, wt, demo, wt, wt, wt), timeout=600)
         info["ran"]["demo_on_clean_tree_exit"] = r.returncode
         r = sh("git -C %s apply %s" % (wt, os.path.abspath(patch)))
         if r.returncode != 0:
@@ -38,7 +39,7 @@ def main():
             raise SystemExit("patch does not apply: " + r.stdout[-300:])
         r = sh("cd %s && cmake -G Ninja -B _b . >/dev/null && cmake --build _b 2>&1 | tail -2 && ./_b/bin/test_asam_cmp | tail -1" % wt, timeout=1200)
         info["ran"]["tests_with_change"] = r.stdout.strip().splitlines()[-1] if r.stdout.strip() else "?"
-        r = sh("g++ -std=c++17 -O1 -pthread -I%s/include %s %s/src/*.cpp -o %s/demo_mut && %s/demo_mut" % (wt, demo, wt, wt, wt), timeout=600)
+        r = sh("g++ -std=c++17 -O1 -pthread %s -I%s/include %s %s/src/*.cpp -o %s/demo_mut && %s/demo_mut" % (DEMO_FLAGS, wt, demo, wt, wt, wt), timeout=600)
         info["ran"]["demo_with_change_exit"] = r.returncode
         info["ran"]["demo_with_change_output"] = r.stdout[-600:]
     except BaseException:
